@@ -1901,3 +1901,42 @@ func phiLeaves(v ssa.Value) []ssa.Value {
 	visit(v)
 	return out
 }
+
+// reslicedOnTheWay reports whether v is (through phis, appends and cells) a
+// re-slice x[a:b] of another slice.
+func reslicedOnTheWay(v ssa.Value) bool {
+	seen := map[ssa.Value]bool{}
+	var visit func(ssa.Value, int) bool
+	visit = func(x ssa.Value, depth int) bool {
+		if x == nil || seen[x] || depth > 30 {
+			return false
+		}
+		seen[x] = true
+		switch t := x.(type) {
+		case *ssa.Slice:
+			if _, isSlice := t.X.Type().Underlying().(*types.Slice); isSlice {
+				return true
+			}
+		case *ssa.Phi:
+			for _, e := range t.Edges {
+				if visit(e, depth+1) {
+					return true
+				}
+			}
+		case *ssa.Call:
+			if an.IsCallTo(t, "builtin:append") {
+				return visit(t.Call.Args[0], depth+1)
+			}
+		case *ssa.UnOp:
+			if a, ok := t.X.(*ssa.Alloc); ok && a.Referrers() != nil {
+				for _, ref := range *a.Referrers() {
+					if st, ok := ref.(*ssa.Store); ok && st.Addr == ssa.Value(a) && visit(st.Val, depth+1) {
+						return true
+					}
+				}
+			}
+		}
+		return false
+	}
+	return visit(v, 0)
+}
